@@ -74,14 +74,15 @@ type offered struct {
 
 // scenarioFacts is what the oracle knows about one execution besides the raw requests.
 type scenarioFacts struct {
-	Asked      map[string]int64 // oid -> true size of every object the caller could legitimately ask about
-	LFSPrefix  string           // path prefix of the LFS API on the server, e.g. "/r"
-	Refs       map[string]bool  // acceptable fully-qualified ref names for ref/refspec members ("" key never allowed)
-	LockPaths  map[string]bool  // repo-relative paths the caller asked to lock / unlock / filter by
-	LockIDs    map[string]bool  // ids the caller passed with --id (besides ids returned by the server)
-	Cursors    map[string]map[string]bool // kind (lock-list|lock-verify) -> next_cursor values the server returned
-	ServerIDs  map[string]bool  // lock ids the server returned in any response
-	Offers     []offered
+	Asked       map[string]int64           // oid -> true size of every object the caller could legitimately ask about
+	AskedSizes  map[string]map[int64]bool  // oid -> every size under which the caller asks about this object (size recorded in a pointer of the history, length of the local object file); nil: not checked
+	LFSPrefix   string                     // path prefix of the LFS API on the server, e.g. "/r"
+	Refs        map[string]bool            // acceptable fully-qualified ref names for ref/refspec members ("" key never allowed)
+	LockPaths   map[string]bool            // repo-relative paths the caller asked to lock / unlock / filter by
+	LockIDs     map[string]bool            // ids the caller passed with --id (besides ids returned by the server)
+	Cursors     map[string]map[string]bool // kind (lock-list|lock-verify) -> next_cursor values the server returned
+	ServerIDs   map[string]bool            // lock ids the server returned in any response
+	Offers      []offered
 	BadAlgoSeen bool
 }
 
@@ -374,8 +375,23 @@ func validateBatch(v *viols, cc *clauseCounter, ss *schemaSet, r *req, f *scenar
 			}
 		} else if !fits || n < 0 {
 			v.add("negative-size:batch", fmt.Sprintf("batch request: object %s has size %v; sizes must be at least zero", oid, om["size"]), reqSummary(r))
+		} else if sizes, known := f.AskedSizes[oid]; known && f.AskedSizes != nil {
+			// the caller asks about an object by (oid, size): the size recorded in the pointer it read, or the length of the object file it found
+			cc.add("object-size-as-asked")
+			if !sizes[n] {
+				v.add("doc:batch:size-wrong", fmt.Sprintf("batch request: object %s is named with size %d, the caller asked about it with size %v (batch.md: size - Integer byte size of the LFS object)", oid, n, sizeList(sizes)), reqSummary(r))
+			}
 		}
 	}
+}
+
+func sizeList(m map[int64]bool) []int64 {
+	var r []int64
+	for n := range m {
+		r = append(r, n)
+	}
+	sort.Slice(r, func(i, j int) bool { return r[i] < r[j] })
+	return r
 }
 
 func validateLockBody(v *viols, cc *clauseCounter, ss *schemaSet, r *req, f *scenarioFacts, kind, schema string) map[string]interface{} {
